@@ -304,17 +304,23 @@ type execState struct {
 }
 
 // relevantCreated counts the base timers created for the objects under test.
-// The executor's own housekeeping context (writable file upload delay, one
-// hour) registers and stops its base timers asynchronously after Execute has
+// The executor's own housekeeping context (writable file upload delay, seven
+// hours) registers and stops its base timers asynchronously after Execute has
 // returned; those are not counted, so that they cannot be mistaken for the
 // re-arm loop of the object under test having settled.
+// uploadDelay is the executor's maximum writable file upload delay; base
+// timers of that (distinctive) length belong to its housekeeping context.
+const uploadDelay = 7 * time.Hour
+
+func housekeeping(d time.Duration) bool { return d >= uploadDelay && d < uploadDelay+time.Hour }
+
 func (x *run) relevantCreated() uint64 { return x.rel.Load() }
 
 // relevantPending counts registered base timers of objects under test.
 func (x *run) relevantPending() int {
 	n := 0
 	for _, d := range x.clk.PendingDurations() {
-		if d < 30*time.Minute {
+		if !housekeeping(d) {
 			n++
 		}
 	}
@@ -378,7 +384,7 @@ func runCase(r *ev.Run, c tcase) {
 		cancelledAt: -1,
 	}
 	clk.OnTimer = func(d time.Duration) {
-		if d < 30*time.Minute {
+		if !housekeeping(d) {
 			x.lastD.Store(int64(d / unit))
 			x.rel.Add(1)
 		}
@@ -1178,7 +1184,7 @@ func (x *run) startExecutor() bool {
 			return &runner_pb.RunResponse{ExitCode: 0}, nil
 		}
 	}}
-	executor := builder.NewLocalBuildExecutor(store, creator, runner, x.sc, time.Hour, nil, 1<<20, nil, false)
+	executor := builder.NewLocalBuildExecutor(store, creator, runner, x.sc, uploadDelay, nil, 1<<20, nil, false)
 	launches := 0
 	es.launch = func(timeout int) bool {
 		launches++
